@@ -455,4 +455,92 @@ theorem idleStep_sinv {E : Env} {s : St} (tp : Tp) (last : Option Nat) (h : SInv
               | false => simp [hpre, hso] at hnoerr
             simp [epochInit, hpre, hok]
 
+/-- ready tick (with or without a cut in the hand-over) -/
+theorem readyStepCut_sinv {E : Env} {s : St} (tp : Tp) (p : CrashPoint) (h : SInv E s) {ep : Nat} (hrt : s.rt = .ready ep)
+    (hep : ¬ ep < tp.epoch) (hseen : s.seen ≤ tp.epoch) (hav : ∀ e ∈ tp.avail, E.entityEpoch e = tp.epoch) :
+    SInv E { readyStepCut E s tp p with seen := tp.epoch } := by
+  obtain ⟨hep1, hes⟩ := h.ready ep hrt
+  have hte : tp.epoch = ep := by omega
+  have hse : s.seen = tp.epoch := by omega
+  -- the state once the open messages have been scanned, for any admissible runtime state
+  have key : ∀ (r : Rt), (r = .ready ep ∨ ∃ e, r = .signing tp.epoch e ∧ E.entityEpoch e = tp.epoch) →
+      SInv E { s with oms := (scan E tp tp.avail s.oms).1, rt := r, seen := tp.epoch } := by
+    intro r hr
+    refine ⟨h.ct, omE_scan E tp tp.avail s.oms h.omE, ?_, ?_, ?_, ?_, h.avk, ?_⟩
+    · intro c hc; exact Nat.le_trans (h.certLe c hc) hseen
+    · intro l hl
+      rcases hr with rfl | ⟨e, rfl, _⟩ <;> cases hl
+    · intro ep' he
+      rcases hr with rfl | ⟨e, rfl, _⟩
+      · simp only [Rt.ready.injEq] at he; subst he; exact ⟨hte.symm, hes⟩
+      · cases he
+    · intro ep' e' he
+      rcases hr with rfl | ⟨e, rfl, hee⟩
+      · cases he
+      · simp only [Rt.signing.injEq] at he
+        obtain ⟨rfl, rfl⟩ := he
+        exact ⟨rfl, by rw [hte]; exact hes, hee⟩
+    · intro ep' he'
+      obtain ⟨a, b⟩ := h.esRound ep' he'
+      exact ⟨Nat.le_trans a hseen, b⟩
+  unfold readyStepCut
+  split
+  · rename_i oms' e heq
+    have homs : (scan E tp tp.avail s.oms).1 = oms' := by rw [heq]
+    have hee : E.entityEpoch e = tp.epoch :=
+      hav e (scan_mem E tp tp.avail s.oms e (by rw [heq]))
+    have kS := key (.signing tp.epoch e) (Or.inr ⟨e, rfl, hee⟩)
+    have kR := key (.ready ep) (Or.inl rfl)
+    rw [homs] at kS kR
+    dsimp only
+    split
+    · exact kS
+    · -- a new open message: the hand-over variants only touch signatures and buffer
+      have base : SInv E { s with oms := oms' } := by
+        have := sinv_frame (s' := { s with oms := oms', seen := s.seen }) kR rfl rfl (by simp [hse]) (by simp [hrt]) rfl rfl
+        exact this
+      split
+      · -- cut before the hand-over: runtime state kept
+        exact sinv_frame (s' := { s with oms := oms', seen := tp.epoch }) kR rfl rfl rfl (by simp [hrt]) rfl rfl
+      · have hn := handOverNoRemoval_sinv (E := E) e base
+        split
+        · rename_i s2 heq2
+          rw [heq2] at hn
+          have hcore := handOverGo_core e (({ s with oms := oms' } : St).buf.filter (·.disc = E.entityDisc e)).reverse { s with oms := oms' } []
+          have hfr := handOverGo_frame e (({ s with oms := oms' } : St).buf.filter (·.disc = E.entityDisc e)).reverse { s with oms := oms' } []
+          have hs2 : s2 = (handOverNoRemoval E { s with oms := oms' } e).1 := by rw [heq2]
+          have e1 : s2.oms = oms' ∧ s2.certs = s.certs ∧ s2.es = s.es ∧ s2.round = s.round := by
+            rw [hs2]; unfold handOverNoRemoval
+            split <;> (rename_i heq3; rw [heq3] at hcore hfr; exact ⟨hcore.1, hcore.2.1, hfr.1, hfr.2⟩)
+          exact sinv_frame (s' := { s2 with rt := .signing tp.epoch e, seen := tp.epoch }) kS e1.2.1 e1.1 rfl rfl e1.2.2.1 e1.2.2.2
+        · rename_i s2 heq2
+          rw [heq2] at hn
+          have hcore := handOverGo_core e (({ s with oms := oms' } : St).buf.filter (·.disc = E.entityDisc e)).reverse { s with oms := oms' } []
+          have hfr := handOverGo_frame e (({ s with oms := oms' } : St).buf.filter (·.disc = E.entityDisc e)).reverse { s with oms := oms' } []
+          have hs2 : s2 = (handOverNoRemoval E { s with oms := oms' } e).1 := by rw [heq2]
+          have e1 : s2.oms = oms' ∧ s2.certs = s.certs ∧ s2.es = s.es ∧ s2.round = s.round ∧ s2.rt = s.rt := by
+            rw [hs2]; unfold handOverNoRemoval
+            split <;> (rename_i heq3; rw [heq3] at hcore hfr; exact ⟨hcore.1, hcore.2.1, hfr.1, hfr.2, hcore.2.2.2.2⟩)
+          exact sinv_frame (s' := { s2 with seen := tp.epoch }) kR e1.2.1 e1.1 rfl (by simp [e1.2.2.2.2, hrt]) e1.2.2.1 e1.2.2.2.1
+      · have hcoreH := handOver_core E { s with oms := oms' } e
+        have hfr := handOverGo_frame e (({ s with oms := oms' } : St).buf.filter (·.disc = E.entityDisc e)).reverse { s with oms := oms' } []
+        have hesr : (handOver E { s with oms := oms' } e).1.es = s.es ∧ (handOver E { s with oms := oms' } e).1.round = s.round := by
+          unfold handOver; dsimp only
+          split <;> (rename_i heq3; rw [heq3] at hfr; exact ⟨hfr.1, hfr.2⟩)
+        split
+        · rename_i s2 heq2
+          rw [heq2] at hcoreH hesr
+          exact sinv_frame (s' := { s2 with rt := .signing tp.epoch e, seen := tp.epoch }) kS hcoreH.2.1 hcoreH.1 rfl rfl hesr.1 hesr.2
+        · rename_i s2 heq2
+          rw [heq2] at hcoreH hesr
+          have hrt2 : s2.rt = s.rt := hcoreH.2.2.2.2
+          exact sinv_frame (s' := { s2 with seen := tp.epoch }) kR hcoreH.2.1 hcoreH.1 rfl
+            (by show s2.rt = Rt.ready ep; rw [hrt2, hrt]) hesr.1 hesr.2
+  · rename_i oms' heq
+    have homs : (scan E tp tp.avail s.oms).1 = oms' := by rw [heq]
+    have kR := key (.ready ep) (Or.inl rfl)
+    rw [homs] at kR
+    rw [← hte] at kR
+    exact kR
+
 end Agg
